@@ -11,7 +11,7 @@ from ..evalr import Evaluator, Frame, State, compare, mk_and, mk_or, negate
 from ..model import walk_no_nested
 from ..mutants import M
 from .common import SELF, fold, loc_of, self_attr
-from .smcloop import SMC, find_smc_loop
+from .smcloop import SMC, find_smc_loop, roles
 
 META = {
     "explanation": (
@@ -82,7 +82,8 @@ def run(ctx):
         ctx.count("functions_folded")
         cb = [e for e in ev.events if e.callee.startswith("call:") and "checkpoint_callback" in e.callee]
         force = T.atom(mc.params[0]) if mc.params else T.atom("force")
-        every, its, cbk = T.atom("checkpoint_every"), T.atom("iterations"), T.atom("checkpoint_callback")
+        R = roles(repo)
+        every, its, cbk = T.atom("checkpoint_every"), T.atom(R.iterations), T.atom("checkpoint_callback")
         want_should = mk_or([force, mk_and([negate(("is", every, T.NONE)), ("cmp", ">", every), ("cmp", "==", ("f", "mod", (its, every), ()))])])
         if len(cb) != 1:
             ctx.unknown("C12.cad", mc.ident, loc_of(mc), f"expected one callback invocation, found {len(cb)}", disc="predicate")
@@ -112,7 +113,7 @@ def run(ctx):
                        "callback invoked iff callback set and (force or (every set and every > 0 and iterations % every == 0))",
                        f"callback invoked under {[T.show(p)[:160] for p in pos]}", disc="predicate")
             st = cb[0].args[0] if cb[0].args else None
-            okp = st is not None and st[0] == "f" and "build_checkpoint_state" in st[1] and {T.atom("samples"), T.atom("iterations"), T.atom("beta")} <= set(st[2]) | {v for _, v in st[3]}
+            okp = st is not None and st[0] == "f" and "build_checkpoint_state" in st[1] and {T.atom(R.samples), T.atom(R.iterations), T.atom(R.beta)} <= set(st[2]) | {v for _, v in st[3]}
             ctx.decide(okp, "C12.cad", mc.ident, loc_of(mc, cb[0].node), "the payload handed to the callback is built from the current samples, iteration and temperature",
                        f"the callback receives {T.show(st)[:160] if st else None}", disc="payload")
 
